@@ -117,8 +117,28 @@ def _tlast(e, r):
     return [S("thread-last"), e[-1], e[:-1]] if _iscall(e) else [S("thread-last"), 1, [[S("lambda"), [S("ignored")], e]]]
 
 
+def _fa(e, r):      # funcall of apply
+    return [S("funcall"), Q(S("apply")), Q(e[0])] + e[1:-1] + [[S("list"), e[-1]]] if _iscall(e) else [S("funcall"), S("apply"), [S("lambda"), [S("&rest"), S("ig")], e], Q([1])]
+
+
+def _af(e, r):      # apply of funcall
+    return [S("apply"), S("funcall"), Q(e[0]), [S("list")] + e[1:]] if _iscall(e) else [S("apply"), Q(S("funcall")), [S("list"), [S("lambda"), [], e]]]
+
+
+def _ff(e, r):
+    return [S("funcall"), S("funcall"), Q(e[0])] + e[1:] if _iscall(e) else [S("funcall"), Q(S("funcall")), [S("lambda"), [], e]]
+
+
+def _aa(e, r):
+    return [S("apply"), Q(S("apply")), Q(e[0]), [S("list"), [S("list")] + e[1:]]] if _iscall(e) else [S("apply"), S("apply"), [S("lambda"), [S("&rest"), S("ig")], e], Q([[1, 2]])]
+
+
 # terminal wrappers through builtins / loops (funcall, apply, dotimes result form, thread-*)
 WIDE_T = [
+    ("funcall-apply", "T", _fa),
+    ("apply-funcall", "T", _af),
+    ("funcall-funcall", "T", _ff),
+    ("apply-apply", "T", _aa),
     ("funcall", "T", _funcall),
     ("apply", "T", _apply),
     ("dotimes-result", "T", lambda e, r: [S("dotimes"), [S("i"), 2, e], [S("probe"), Q(S("turn")), S("i")]]),
